@@ -61,12 +61,12 @@ def obligations(c):
 
 
 def prop(c):
-    from ..histcheck import panic_obligations, reach_witness, busy_witness
+    from ..histcheck import match_unwind_for, panic_obligations, reach_witness, busy_witness
     return obligations(c) + panic_obligations(c) + [reach_witness(c), busy_witness(c)]
 
 
 def cubes(tier):
-    from ..histcheck import sequences
+    from ..histcheck import sequences, match_unwind_for
     out = []
     if tier == 'quick':
         n, k, depth, nadds, price = 2, 3, 3, 2, 1
@@ -79,7 +79,7 @@ def cubes(tier):
                     'price': price, 'assume_unwind': False, 'family': 'inductive', 'native': op != 'I'})
     # family H: complete histories from an empty level (end-to-end, validated against the real crate)
     for s in sequences(depth, nadds):
-        mu = 5 if s.count('M') <= 1 else 3
+        mu = match_unwind_for(s, 5)
         out.append({'seq': s, 'match_unwind': mu, 'pop_unwind': depth + 3, 'qty_mode': 'full', 'price': price,
                     'family': 'history'})
     return out
